@@ -27,6 +27,8 @@ From Omega Require Import L5Cover.Boxes L5Cover.BoxesProofs L5Cover.MinCover
   L5Cover.FloorLitProofs L5Cover.MinCoverOld L5Cover.MinCoverRefuted
   L5Cover.CyclicCoreOpt L5Cover.MinCoverFull L5Cover.CyclicCoreTotal
   L5Cover.MinCoverTotal.
+From OmegaGen Require Import CoverCCGen.
+From OmegaGP Require Import CoverCCBridge.
 Open Scope Z_scope.
 
 (* ---- (1) the order used by the code is inclusion of boxes *)
@@ -289,6 +291,45 @@ Proof.
   exists K. split; [exact HK | apply (minimize_min rs pick f care K Hok HK)].
 Qed.
 
+(* ---- tie T below the branch-and-bound skeleton: the functions of cover.py
+   that the model's cyclic_core / indep_size / some_cover / unfloors /
+   max_ceilings / max_floors stand for, translated from the working tree on
+   every run (gen/CoverCCGen.v), ARE those model functions
+   (GenProofs/CoverCCBridge.v) *)
+Theorem C09_cyclic_core_code_is_model : forall rs f care,
+  cyclic_core_gen rs (S (cc_fuel (embed rs f) (primes rs f care))) f care =
+  cyclic_core_fc rs f care.
+Proof. exact cyclic_core_gen_is_model. Qed.
+
+Theorem C09_cyclic_core_fixpoint_code_is_model : forall rs fuel X Y,
+  cyclic_core_fixpoint_gen rs (S fuel) X Y = cc_loop rs fuel X Y [].
+Proof. exact cyclic_core_fixpoint_gen_is_cc_loop. Qed.
+
+Theorem C09_max_transpose_code_is_model : forall rs X Y,
+  max_transpose_gen rs X Y true = max_ceilings rs X Y /\
+  max_transpose_gen rs X Y false = max_floors rs X Y.
+Proof. intros; split; reflexivity. Qed.
+
+Theorem C09_lower_bound_code_is_model : forall pick fuel X Y,
+  lower_bound_gen pick (S fuel) X Y =
+  if indep_ok pick fuel X Y then Some (indep_size pick fuel X Y) else None.
+Proof. exact lower_bound_gen_is_model. Qed.
+
+Theorem C09_upper_bound_code_is_model : forall pick fuel X Y,
+  upper_bound_gen pick (S fuel) X Y =
+  option_map (@length box) (some_cover pick fuel X Y).
+Proof. exact upper_bound_gen_is_model. Qed.
+
+Theorem C09_some_cover_code_is_model : forall pick,
+  (forall s b, pick s = Some b -> In b s) -> forall fuel X Y,
+  some_cover_gen pick (S fuel) X Y false =
+  option_map (fun c => (Some c, length c)) (some_cover pick fuel X Y).
+Proof. exact some_cover_gen_cover_is_model. Qed.
+
+Theorem C09_unfloors_code_is_model : forall pick C Y,
+  unfloors_gen pick C Y = unfloors pick C Y.
+Proof. exact unfloors_gen_is_model. Qed.
+
 (* non-vacuity of the hypotheses on pick *)
 Example C09_pick_first_total : forall s, pick_first s = None -> s = [].
 Proof. exact pick_first_total. Qed.
@@ -319,3 +360,10 @@ Print Assumptions C09_cyclic_core_two_covers.
 Print Assumptions C09_total.
 Print Assumptions C09_full_total.
 Print Assumptions C09_refuted_unrepaired_leaf_full.
+Print Assumptions C09_cyclic_core_code_is_model.
+Print Assumptions C09_cyclic_core_fixpoint_code_is_model.
+Print Assumptions C09_max_transpose_code_is_model.
+Print Assumptions C09_lower_bound_code_is_model.
+Print Assumptions C09_upper_bound_code_is_model.
+Print Assumptions C09_some_cover_code_is_model.
+Print Assumptions C09_unfloors_code_is_model.
